@@ -28,7 +28,8 @@ def _dt(t):
     return {'$': 'dt', 'v': d.isoformat()}
 
 
-ints = st.one_of(st.sampled_from([0, 1, -1, 2, -2, 7, 100]), st.integers(-1000, 1000), st.integers(-10 ** 15, 10 ** 15))
+ints = st.one_of(st.sampled_from([0, 1, -1, 2, -2, 7, 100]), st.integers(-1000, 1000), st.integers(-10 ** 15, 10 ** 15), st.integers(-1000, 1000),
+                 st.one_of(st.integers(-2 ** 70, 2 ** 70), st.sampled_from([2 ** 53 + 1, -(2 ** 53) - 1, 10 ** 17 + 1, 3 ** 40])))        # Python integers pass through the evaluator exactly, beyond 2^53 too
 floats = st.one_of(st.integers(-4000, 4000).map(lambda k: k / 8.0), st.integers(-10 ** 6, 10 ** 6).map(lambda k: k / 100.0),
                    st.tuples(st.floats(-9, 9), st.booleans()).map(lambda t: (10.0 ** t[0]) * (-1 if t[1] else 1)), st.sampled_from([0.5, -0.5, 0.1, 2.5]))
 numtext = st.one_of(st.integers(-999, 999).map(str), st.integers(0, 99).map(lambda k: '+%d' % k),
@@ -218,7 +219,7 @@ def check_commute(case):
                         r1['error'] or enc(r1['result']), r2['error'] or enc(r2['result']))
 
 
-amp_operand = st.one_of(st.text(max_size=8), st.text(st.sampled_from('ab 1,;"\''), max_size=5), st.integers(-10 ** 12, 10 ** 12), st.integers(-9, 99), st.none())
+amp_operand = st.one_of(st.text(max_size=8), st.text(st.sampled_from('ab 1,;"\''), max_size=5), st.integers(-10 ** 12, 10 ** 12), st.integers(-9, 99), st.none(), st.integers(-10 ** 30, 10 ** 30))
 
 
 def check_amp(case):
